@@ -6,6 +6,7 @@ import (
 	"fmt"
 	"go/ast"
 	"go/types"
+	"golang.org/x/tools/go/packages"
 	"math/big"
 	"strings"
 )
@@ -102,10 +103,18 @@ func c18Tables(c *Ctx, r *Report, p *Prog, f *Folder, cv *curveT) {
 	var schemes []scheme
 	generic := pk.Types.Scope().Lookup("scalarBaseMult_SkipBitExtration")
 	if generic == nil {
-		r.Fatalf("unresolved anchor: sm2/internal.scalarBaseMult_SkipBitExtration")
-		return
+		// the generic routine is gone: the schemes may be values of a struct type that pairs the four parameters (its first
+		// four integer fields, in declaration order: window, sub-tables, iterations, remainder) with the tables
+		schemes = c18SchemeLiterals(r, p, pk)
+		if len(schemes) == 0 {
+			r.Fatalf("unresolved anchor: sm2/internal.scalarBaseMult_SkipBitExtration")
+			return
+		}
 	}
 	for _, file := range pk.Syntax {
+		if generic == nil {
+			break
+		}
 		ast.Inspect(file, func(n ast.Node) bool {
 			call, ok := n.(*ast.CallExpr)
 			if !ok {
@@ -832,4 +841,87 @@ func c18ArmImm(r *Report, u *AsmUnit) {
 	if !found87 {
 		r.Fatalf("unresolved anchor: arm64 gHashBlocks loads no immediate reduction constant")
 	}
+}
+
+// c18SchemeLiterals: composite literals of a struct type whose first four integer fields are constants and whose slice fields
+// name package-level comb tables: one scheme per literal
+func c18SchemeLiterals(r *Report, p *Prog, pk *packages.Package) []scheme {
+	var out []scheme
+	for _, file := range pk.Syntax {
+		ast.Inspect(file, func(n ast.Node) bool {
+			cl, ok := n.(*ast.CompositeLit)
+			if !ok {
+				return true
+			}
+			tv, ok := pk.TypesInfo.Types[cl]
+			if !ok {
+				return true
+			}
+			st, ok := tv.Type.Underlying().(*types.Struct)
+			if !ok {
+				return true
+			}
+			// the integer fields in declaration order
+			var intFields []string
+			for i := 0; i < st.NumFields(); i++ {
+				if b, ok := st.Field(i).Type().Underlying().(*types.Basic); ok && b.Info()&types.IsInteger != 0 {
+					intFields = append(intFields, st.Field(i).Name())
+				}
+			}
+			if len(intFields) < 4 {
+				return true
+			}
+			vals := map[string]int{}
+			var tables []string
+			for i, el := range cl.Elts {
+				name := ""
+				var val ast.Expr = el
+				if kv, ok := el.(*ast.KeyValueExpr); ok {
+					if id, ok := kv.Key.(*ast.Ident); ok {
+						name = id.Name
+					}
+					val = kv.Value
+				} else if i < st.NumFields() {
+					name = st.Field(i).Name()
+				}
+				if v, ok := pk.TypesInfo.Types[val]; ok && v.Value != nil {
+					if cv, err := constVal(v.Value); err == nil && cv.big != nil && cv.big.IsInt64() {
+						vals[name] = int(cv.big.Int64())
+					}
+					continue
+				}
+				e := val
+				if u, ok := e.(*ast.UnaryExpr); ok {
+					e = u.X
+				}
+				if id, ok := e.(*ast.Ident); ok {
+					if v, ok := pk.TypesInfo.Uses[id].(*types.Var); ok && v.Parent() == pk.Types.Scope() && strings.HasPrefix(id.Name, "sm2Precomputed") {
+						tables = append(tables, id.Name)
+					}
+				}
+			}
+			if len(tables) == 0 {
+				return true
+			}
+			sc := scheme{site: p.Pos(cl.Pos())}
+			ints := make([]int, 4)
+			for i := 0; i < 4; i++ {
+				ints[i] = vals[intFields[i]] // an omitted field is zero
+			}
+			sc.w, sc.s, sc.it, sc.rem = ints[0], ints[1], ints[2], ints[3]
+			for _, t := range tables {
+				if strings.HasSuffix(t, "_Remainder") {
+					sc.remTbl = t
+				} else {
+					sc.table = t
+				}
+			}
+			if sc.table == "" {
+				return true
+			}
+			out = append(out, sc)
+			return true
+		})
+	}
+	return out
 }
